@@ -180,10 +180,13 @@ def generate_common_js_code(script: Script) -> str:
         if not first_function:
             code += "\n"
         
-        if f.name == 'new':
-            f.name = 'birth'
+        # The handler is renamed in the generated text only: the tree is
+        # shared with the Lingo generator
+        fname: str = f.name
+        if fname == 'new':
+            fname = 'birth'
         
-        code = code + vsprintf("function %s(", f.name)
+        code = code + vsprintf("function %s(", fname)
         if len(f.parameters) > 0:
             params: List[str] = []
             for n in f.parameters:
